@@ -50,11 +50,14 @@ def FormatError.toString : FormatError → String
   | .badRowval => "BadRowval"
   | .sparsityMismatch => "SparsityMismatch"
 
-/-- `check_dimensions` -/
+/-- `check_dimensions`.  (Since /repo 190e6c4 the code also rejects `colptr[0] != 0` with
+`BadColptr`, right after the dimension tests: an encoding whose first column does not start
+at the first stored entry owns entries that belong to no column.) -/
 def checkDimensions (M : Csc α) : Except FormatError Unit :=
   if M.rowval.size != M.nzval.size then .error .incompatibleDimension
   else if M.colptr.size == 0 || M.colptr.size - 1 != M.n || M.colptr.getD M.n 0 != M.rowval.size then
     .error .incompatibleDimension
+  else if M.colptr.getD 0 0 != 0 then .error .badColptr
   else if anyAdjacent (fun a b => decide (a > b)) M.colptr.toList then .error .badColptr
   else .ok ()
 
@@ -115,7 +118,7 @@ def transpose (M : Csc α) : Csc α :=
 /-! ### Further operations of `core.rs` (added after the exemplar)
 
 Domain of the definitions below (and of `toTriu/selectRows/transpose` above): encodings
-that pass `check_dimensions` and have `colptr[0] = 0` ("well-dimensioned").  Columns may
+that pass `check_dimensions` (which includes `colptr[0] = 0`; "well-dimensioned").  Columns may
 be unsorted / contain duplicates / out-of-range rows unless stated otherwise.  The
 correspondence generators stay inside this domain (malformed encodings are only sent to
 `check_format` and `canonicalize`). -/
@@ -253,6 +256,30 @@ def indexToCoord (M : Csc α) (idx : Nat) : MErr (Nat × Nat) :=
   | some row =>
     let pp := (M.colptr.toList.takeWhile (fun c => decide (idx + 1 > c))).length
     pure (row, pp - 1)
+
+/-! ### Round 3 additions (C16) -/
+
+/-- `CscMatrix::new`: the three `assert_eq!`s of the constructor, in order -/
+def new (m n : Nat) (colptr rowval : Array Nat) (nzval : Array α) : MErr (Csc α) :=
+  if rowval.size != nzval.size then throw (.panic "new: assert_eq rowval.len nzval.len")
+  else if colptr.size != n + 1 then throw (.panic "new: assert_eq colptr.len n+1")
+  else match colptr[n]? with
+    | none => throw (.panic "new: colptr[n]")
+    | some l =>
+      if l != rowval.size then throw (.panic "new: assert_eq colptr[n] rowval.len")
+      else pure { m := m, n := n, colptr := colptr, rowval := rowval, nzval := nzval }
+
+/-- the derived `PartialEq` of `CscMatrix`: field-wise comparison in declaration order
+(`nzval` with the scalar's `==`, so at `f64` a stored NaN makes a matrix unequal to itself
+and `0.0 == -0.0`) -/
+def isEqual [BEq α] (A B : Csc α) : Bool :=
+  A.m == B.m && A.n == B.n && A.colptr == B.colptr && A.rowval == B.rowval && A.nzval == B.nzval
+
+/-- `nnz` with Rust's index panic (`self.colptr[self.n]`) -/
+def nnzE (M : Csc α) : MErr Nat := getE M.colptr M.n "nnz: colptr[n]"
+
+/-- `ShapedMatrix::{nrows, ncols, is_square}` -/
+def isSquare (M : Csc α) : Bool := M.m == M.n
 
 end Csc
 end Clarabel
